@@ -182,6 +182,7 @@ func (e *Exec) intrinsic(fn *ssa.Function, name string, args []Value) (Value, bo
 		return e.c64(int64(n)), true
 	case "vCancelReleased":
 		// no goroutine left behind: every recorded goroutine ran to completion
+		e.wake()
 		for _, t := range e.threads {
 			if !t.done {
 				return e.st.False, true
@@ -230,8 +231,7 @@ func (e *Exec) intrinsic(fn *ssa.Function, name string, args []Value) (Value, bo
 		if i >= len(e.threads) {
 			e.unsupported("vRunThread: no such thread")
 		}
-		e.invoke(e.threads[i].fn, e.threads[i].args)
-		e.threads[i].done = true
+		e.unsupported("vRunThread is obsolete")
 		return nil, true
 	case "vMapHavoc":
 		return e.mapHavoc(args), true
